@@ -12,7 +12,7 @@ use pushr::push::parser::PushParser;
 use pushr::push::random::CodeGenerator;
 use pushr::push::state::PushState;
 
-const NAMES: [&str; 8] = ["a", "foo", "x1", "Bar-2", "a.b", "secretive-turn", "CODE.", "integer.+"];
+const NAMES: [&str; 18] = ["a", "foo", "x1", "Bar-2", "a.b", "secretive-turn", "CODE.", "integer.+", "(x", "x)", "f(x)", "()", "a,b", "[1,2]", "INT", "TRUE1", "1a", "é"];
 
 fn tree(r: &mut Rng, depth: usize, floats: bool, instr: &[String]) -> SItem {
     if depth == 0 || r.chance(2, 5) {
